@@ -30,6 +30,11 @@ def run(chk, tier):
     prog = program(crates=('core',))
     chk.explanation = __doc__
     cg = CallGraph(prog)
+    # sequence numbers are only "unique" to the tracer if the number recovered from a response is the number that was sent (a decode that folds two
+    # sequences of one round onto each other — `% 512` on the Dublin/IPv6 payload length — makes them the same probe): the encode / decode identity per
+    # configuration cell is C02.R1, imported. C02's known findings (F19: unprivileged Paris / Dublin) are listed for this property too, under the imported keys.
+    from ..report import run_sub
+    run_sub(chk, 'c02', 'C02.', {'R1'})
 
     # ---- R1 ---------------------------------------------------------------------------------------------
     chk.rule('R1', 'constant relations', floor=6)
